@@ -25,6 +25,28 @@ type lockHold struct {
 	m     *Monitor
 	owner Term
 	snap  *State
+	site  int // ordinal (source order, from 1) of the Lock call in the function that acquired it
+}
+
+// lockSite numbers the Lock calls of a monitor inside one function by source position.
+func (e *Engine) lockSite(fn *ssa.Function, m *Monitor, pos token.Pos) int {
+	var ps []token.Pos
+	for _, b := range fn.Blocks {
+		for _, in := range b.Instrs {
+			if call, ok := in.(*ssa.Call); ok {
+				if mm, op, _ := e.lockOpOf(&call.Call); mm == m && op == "lock" {
+					ps = append(ps, call.Pos())
+				}
+			}
+		}
+	}
+	sort.Slice(ps, func(i, j int) bool { return ps[i] < ps[j] })
+	for i, p := range ps {
+		if p == pos {
+			return i + 1
+		}
+	}
+	return 0
 }
 
 func (e *Engine) monitorByName(name string) *Monitor {
@@ -122,10 +144,21 @@ func (fr *Frame) lockCall(cc *ssa.CallCommon, pos token.Pos) *Val {
 			r.Trusted["monitor assumption: "+as.Src] = true
 		}
 		fr.st.held[m.Name] = true
-		fr.st.locks[m.Name] = &lockHold{m: m, owner: owner, snap: fr.st.Clone()}
+		site := r.Eng.lockSite(fr.Fn, m, pos)
+		fr.st.locks[m.Name] = &lockHold{m: m, owner: owner, snap: fr.st.Clone(), site: site}
 		r.recordLockSnap("locked", fr)
-		r.recordLockSnap("locked:"+m.Name, fr)
-		r.addCover("lock:"+m.Name+"-reachable-with-invariant", fr.cur)
+		r.recordLockSnap("locked_"+m.Name, fr)
+		r.recordLockSnap(fmt.Sprintf("locked_%s_%d", m.Name, site), fr)
+		cname := fmt.Sprintf("lock:%s@%d-reachable-with-invariant", m.Name, site)
+		if r.lockCovers == nil {
+			r.lockCovers = map[string]Term{}
+		}
+		if prev, ok := r.lockCovers[cname]; ok {
+			r.lockCovers[cname] = Or(prev, fr.cur)
+		} else {
+			r.lockCovers[cname] = fr.cur
+			r.lockCoverOrd = append(r.lockCoverOrd, cname)
+		}
 	case "unlock":
 		if fr.st.held["$inconsistent"] {
 			r.unsupported("monitor %s: lock state differs between merged paths", m.Name)
@@ -145,7 +178,8 @@ func (fr *Frame) lockCall(cc *ssa.CallCommon, pos token.Pos) *Val {
 			r.addOblNamed(unit+"#mon-trans:"+tr.Label, "mon-trans", Implies(fr.cur, ctx.Bool(tr.E)), tr.Src, &cl, pos)
 		}
 		r.recordLockSnap("unlocked", fr)
-		r.recordLockSnap("unlocked:"+m.Name, fr)
+		r.recordLockSnap("unlocked_"+m.Name, fr)
+		r.recordLockSnap(fmt.Sprintf("unlocked_%s_%d", m.Name, h.site), fr)
 		delete(fr.st.held, m.Name)
 		delete(fr.st.locks, m.Name)
 		fr.bumpTop()
